@@ -176,6 +176,18 @@ pub fn server_for(cfg: &SrvCfg) -> Result<std::rc::Rc<Srv>, String> {
     })
 }
 
+/// A server instance of its own for this cell (never used before): per-server state such as the single-port
+/// listener's buffer size or its routing table starts from scratch. It still counts for the thread baseline.
+pub fn server_fresh(cfg: &SrvCfg) -> Result<std::rc::Rc<Srv>, String> {
+    SERVERS.with(|m| {
+        let mut m = m.borrow_mut();
+        let s = std::rc::Rc::new(start_server(cfg)?);
+        let key = format!("{}#fresh{}", cfg.key(), m.len());
+        m.insert(key, s.clone());
+        Ok(s)
+    })
+}
+
 pub fn current_baseline() -> usize {
     // all servers of this process idle: main thread + one listener per server
     SERVERS.with(|m| 1 + m.borrow().len())
@@ -453,6 +465,20 @@ pub fn download_ex(srv: &Srv, name: &[u8], opts: &[(String, String)], pre_ack_gr
 /// (stale) just before each new one
 pub fn download_mode(srv: &Srv, name: &[u8], opts: &[(String, String)], pre_ack_grace: Option<Duration>, ack_mode: u8) -> Dl {
     let mut c = Client::new(srv.addr);
+    download_on(&mut c, srv, name, opts, pre_ack_grace, ack_mode)
+}
+
+impl Client {
+    /// prepare a socket that has been used before for another request (same endpoint, new transfer)
+    pub fn reset_for_reuse(&mut self) {
+        while self.try_recv().is_some() {}
+        self.peer = None;
+        self.sources.clear();
+    }
+}
+
+/// The same, from a given client socket (which may have been used for earlier requests: same endpoint).
+pub fn download_on(c: &mut Client, srv: &Srv, name: &[u8], opts: &[(String, String)], pre_ack_grace: Option<Duration>, ack_mode: u8) -> Dl {
     let mut prev_ack: Option<u16> = None;
     let mut r = Dl::default();
     c.to_server(&rc::request(false, name, opts));
@@ -463,7 +489,7 @@ pub fn download_mode(srv: &Srv, name: &[u8], opts: &[(String, String)], pre_ack_
     let mut first = true;
     let mut burst: Vec<u16> = vec![];
     loop {
-        let Some((b, _from)) = reply_or_quiet(srv, &mut c) else {
+        let Some((b, _from)) = reply_or_quiet(srv, c) else {
             if first {
                 r.first = "none".into();
             } else {
@@ -571,9 +597,13 @@ pub struct Ul {
 /// Uploads `payload` as `name`; follows acknowledged blksize/windowsize; sends one window, waits for its ACK.
 pub fn upload(srv: &Srv, name: &[u8], opts: &[(String, String)], payload: &[u8]) -> Ul {
     let mut c = Client::new(srv.addr);
+    upload_on(&mut c, srv, name, opts, payload)
+}
+
+pub fn upload_on(c: &mut Client, srv: &Srv, name: &[u8], opts: &[(String, String)], payload: &[u8]) -> Ul {
     let mut r = Ul::default();
     c.to_server(&rc::request(true, name, opts));
-    let Some((b, _)) = reply_or_quiet(srv, &mut c) else {
+    let Some((b, _)) = reply_or_quiet(srv, c) else {
         r.first = "none".into();
         quiesce();
         return r;
@@ -631,7 +661,7 @@ pub fn upload(srv: &Srv, name: &[u8], opts: &[(String, String)], payload: &[u8])
         }
         // wait for the ACK of this window
         loop {
-            let Some((b, _)) = reply_or_quiet(srv, &mut c) else {
+            let Some((b, _)) = reply_or_quiet(srv, c) else {
                 r.anomalies.push(format!("no acknowledgement for blocks {base}..{hi}"));
                 break 'outer;
             };
